@@ -737,10 +737,25 @@ mod v_wire_roundtrip {
     fn any_router_flags() -> NdiscRouterFlags {
         NdiscRouterFlags::from_bits_truncate(kani::any())
     }
-    /// A 32-bit wire quantity that the Repr holds as a Duration: 0..=65535 or the all-ones value ("infinity").
-    /// (Duration stores microseconds; the full 32-bit range puts a 64-bit multiply/divide pair into every query.)
+    /// A 32-bit wire quantity that the Repr holds as a Duration: 0..=255 symbolic, or one of 1800, 65535,
+    /// 2592000 (30 days), 0xffffffff ("infinity").  (Duration stores microseconds; a wider symbolic range puts a
+    /// 64-bit multiply/divide pair into the query that CaDiCaL does not finish.)
     fn any_wire_u32() -> u64 {
-        if kani::any() { u32::MAX as u64 } else { kani::any::<u16>() as u64 }
+        match kani::any::<u8>() {
+            0 => kani::any::<u8>() as u64,
+            1 => 1800,
+            2 => 65535,
+            3 => 2_592_000,
+            _ => u32::MAX as u64,
+        }
+    }
+    /// same for a 16-bit second count
+    fn any_wire_u16() -> u64 {
+        match kani::any::<u8>() {
+            0 => kani::any::<u8>() as u64,
+            1 => 1800,
+            _ => 65535,
+        }
     }
     fn any_prefix_info() -> NdiscPrefixInformation {
         // lifetimes are 32-bit second counts on the wire
@@ -830,7 +845,7 @@ mod v_wire_roundtrip {
         kani::cover!(back.is_ok(), "parsed back");
     }
 
-    // @harness props=C06 cfg=KW tier=q to=300 mem=4 unwind=20 opts=nomem covers=1 funcs=wire::icmpv6::Repr::emit;wire::icmpv6::Repr::parse;wire::ndisc::Repr::emit;wire::ndisc::Repr::parse;wire::ndiscoption::Repr::emit;wire::ndiscoption::Repr::parse bounds=neighbor_solicit_through_Icmpv6Repr;_ethernet_lladdr;_every_byte_compared
+    // @harness props=C06 cfg=KW tier=t to=1200 mem=10 unwind=20 opts=nomem covers=1 funcs=wire::icmpv6::Repr::emit;wire::icmpv6::Repr::parse;wire::ndisc::Repr::emit;wire::ndisc::Repr::parse;wire::ndiscoption::Repr::emit;wire::ndiscoption::Repr::parse bounds=neighbor_solicit_through_Icmpv6Repr;_ethernet_lladdr;_every_byte_compared
     #[kani::proof]
     pub(crate) fn rt_icmpv6_ndisc_ns_wrapped() {
         let (src, dst) = (any_v6(), any_v6());
@@ -853,6 +868,12 @@ mod v_wire_roundtrip {
             }
             _ => assert!(false, "prop:c06_parse_of_emit_is_identity"),
         }
+    }
+
+    // @harness props=C06 cfg=KW tier=q to=300 mem=4 unwind=20 opts=nomem covers=1 funcs=wire::ndisc::Repr::emit;wire::ndisc::Repr::parse;wire::ndisc::Repr::buffer_len;wire::ndiscoption::Repr::emit;wire::ndiscoption::Repr::parse bounds=neighbor_solicit;_ethernet_lladdr
+    #[kani::proof]
+    pub(crate) fn rt_ndisc_ns_eth() {
+        ndisc_tail!(NdiscRepr::NeighborSolicit { target_addr: any_v6(), lladdr: Some(ll_eth()) }, 32, k => true);
     }
 
     // @harness props=C06 cfg=KW tier=t to=300 mem=4 unwind=20 opts=nomem covers=1 funcs=wire::ndisc::Repr::emit;wire::ndisc::Repr::parse bounds=neighbor_solicit;_802.15.4_lladdr;_option_padding_excluded_from_stale_check
@@ -879,7 +900,7 @@ mod v_wire_roundtrip {
             NdiscRepr::RouterAdvert {
                 hop_limit: kani::any(),
                 flags: any_router_flags(),
-                router_lifetime: Duration::from_secs(kani::any::<u16>() as u64),
+                router_lifetime: Duration::from_secs(any_wire_u16()),
                 reachable_time: Duration::from_millis(any_wire_u32()),
                 retrans_time: Duration::from_millis(any_wire_u32()),
                 lladdr: $lladdr,
@@ -895,7 +916,7 @@ mod v_wire_roundtrip {
         ndisc_tail!(any_ra!(None, None, None), 16, k => true);
     }
 
-    // @harness props=C06 cfg=KW tier=q to=600 mem=4 unwind=20 opts=nomem covers=1 funcs=wire::ndisc::Repr::emit;wire::ndisc::Repr::parse;wire::ndisc::Repr::buffer_len;wire::ndiscoption::Repr::emit;wire::ndiscoption::Repr::parse bounds=router_advert;_ethernet_lladdr+MTU+prefix_information;_timers_and_lifetimes_0..=65535_or_0xffffffff;_MTU_reserved_bytes_excluded_from_stale_check
+    // @harness props=C06 cfg=KW tier=q to=600 mem=4 unwind=20 opts=nomem covers=1 funcs=wire::ndisc::Repr::emit;wire::ndisc::Repr::parse;wire::ndisc::Repr::buffer_len;wire::ndiscoption::Repr::emit;wire::ndiscoption::Repr::parse bounds=router_advert;_ethernet_lladdr+MTU+prefix_information;_timers_and_lifetimes_0..=255_or_1800|65535|2592000|0xffffffff;_MTU_reserved_bytes_excluded_from_stale_check
     #[kani::proof]
     pub(crate) fn rt_ndisc_ra_all() {
         ndisc_tail!(any_ra!(Some(ll_eth()), Some(kani::any()), Some(any_prefix_info())), 64, k => k < 26 || k >= 28);
@@ -913,10 +934,16 @@ mod v_wire_roundtrip {
         ndisc_tail!(any_ra!(None, Some(kani::any()), None), 24, k => k < 18 || k >= 20);
     }
 
-    // @harness props=C06 cfg=KW tier=t to=300 mem=4 unwind=20 opts=nomem covers=1 funcs=wire::ndisc::Repr::emit;wire::ndisc::Repr::parse bounds=redirect;_no_option
+    // @harness props=C06 cfg=KW tier=t to=1200 mem=8 unwind=20 opts=nomem covers=1 funcs=wire::ndisc::Repr::emit;wire::ndisc::Repr::parse bounds=redirect;_no_option
     #[kani::proof]
     pub(crate) fn rt_ndisc_redirect_none() {
         ndisc_tail!(NdiscRepr::Redirect { target_addr: any_v6(), dest_addr: any_v6(), lladdr: None, redirected_hdr: None }, 40, k => true);
+    }
+
+    // @harness props=C06 cfg=KW tier=t to=1200 mem=8 unwind=20 opts=nomem covers=1 funcs=wire::ndisc::Repr::emit;wire::ndisc::Repr::parse;wire::ndisc::Repr::buffer_len bounds=redirect;_ethernet_target_lladdr
+    #[kani::proof]
+    pub(crate) fn rt_ndisc_redirect_ll() {
+        ndisc_tail!(NdiscRepr::Redirect { target_addr: any_v6(), dest_addr: any_v6(), lladdr: Some(ll_eth()), redirected_hdr: None }, 48, k => true);
     }
 
     /// Redirect with both options; the redirected header describes exactly the bytes that follow it (emit copies
@@ -929,7 +956,7 @@ mod v_wire_roundtrip {
         }};
     }
 
-    // @harness props=C06 cfg=KW tier=q to=600 mem=6 unwind=20 opts=nomem,fs128 covers=1 funcs=wire::ndisc::Repr::emit;wire::ndisc::Repr::parse;wire::ndisc::Repr::buffer_len;wire::ndiscoption::Repr::emit;wire::ndiscoption::Repr::parse bounds=redirect;_ethernet_lladdr+redirected_header_with_8_payload_bytes;_parse_of_emit
+    // @harness props=C06 cfg=KW tier=t to=1800 mem=12 unwind=20 opts=nomem,fs128 covers=1 funcs=wire::ndisc::Repr::emit;wire::ndisc::Repr::parse;wire::ndisc::Repr::buffer_len;wire::ndiscoption::Repr::emit;wire::ndiscoption::Repr::parse bounds=redirect;_ethernet_lladdr+redirected_header_with_8_payload_bytes;_parse_of_emit
     #[kani::proof]
     pub(crate) fn rt_ndisc_redirect_full() {
         let data: [u8; 8] = kani::any();
@@ -943,7 +970,7 @@ mod v_wire_roundtrip {
         ndisc_indep!(ndisc_redirect_full!(&data[..]), 104, k => true);
     }
 
-    // @harness props=C06 cfg=KW tier=t to=600 mem=6 unwind=20 opts=nomem,fs128 covers=1 funcs=wire::ndisc::Repr::emit;wire::ndisc::Repr::parse bounds=redirect;_redirected_header_with_16_payload_bytes_only;_parse_of_emit
+    // @harness props=C06 cfg=KW tier=t to=1800 mem=12 unwind=20 opts=nomem,fs128 covers=1 funcs=wire::ndisc::Repr::emit;wire::ndisc::Repr::parse bounds=redirect;_redirected_header_with_16_payload_bytes_only;_parse_of_emit
     #[kani::proof]
     pub(crate) fn rt_ndisc_redirect_hdr() {
         let data: [u8; 16] = kani::any();
@@ -985,7 +1012,7 @@ mod v_wire_roundtrip {
         ndiscopt_tail!(NdiscOptionRepr::TargetLinkLayerAddr(ll_ieee()), 16, k => k < 10);
     }
 
-    // @harness props=C06 cfg=KW tier=q to=300 mem=4 unwind=20 opts=nomem covers=1 funcs=wire::ndiscoption::Repr::emit;wire::ndiscoption::Repr::parse;wire::ndiscoption::Repr::buffer_len bounds=prefix_information;_lifetimes_0..=65535_s_or_0xffffffff;_all_other_field_values
+    // @harness props=C06 cfg=KW tier=q to=300 mem=4 unwind=20 opts=nomem covers=1 funcs=wire::ndiscoption::Repr::emit;wire::ndiscoption::Repr::parse;wire::ndiscoption::Repr::buffer_len bounds=prefix_information;_lifetimes_0..=255_s_or_1800|65535|2592000|0xffffffff;_all_other_field_values
     #[kani::proof]
     pub(crate) fn rt_ndiscopt_prefix() {
         ndiscopt_tail!(NdiscOptionRepr::PrefixInformation(any_prefix_info()), 32, k => true);
@@ -997,7 +1024,7 @@ mod v_wire_roundtrip {
         ndiscopt_tail!(NdiscOptionRepr::Mtu(kani::any()), 8, k => k < 2 || k >= 4);
     }
 
-    // @harness props=C06 cfg=KW tier=t to=300 mem=4 unwind=20 opts=nomem covers=1 funcs=wire::ndiscoption::Repr::emit;wire::ndiscoption::Repr::parse bounds=redirected_header;_8_payload_bytes
+    // @harness props=C06 cfg=KW tier=q to=300 mem=4 unwind=20 opts=nomem covers=1 funcs=wire::ndiscoption::Repr::emit;wire::ndiscoption::Repr::parse;wire::ndiscoption::Repr::buffer_len bounds=redirected_header;_8_payload_bytes
     #[kani::proof]
     pub(crate) fn rt_ndiscopt_redirected() {
         let data: [u8; 8] = kani::any();
@@ -1160,7 +1187,7 @@ mod v_wire_roundtrip {
         repr.emit(&mut Icmpv6Packet::new_unchecked(&mut b1[..n]));
     }
 
-    // @harness props=C06 cfg=KW tier=t to=300 mem=4 unwind=20 opts=nomem covers=1 funcs=wire::icmpv6::Repr::emit;wire::icmpv6::Repr::parse;wire::mld::Repr::emit;wire::mld::Repr::parse bounds=query_without_sources_through_Icmpv6Repr;_every_byte_compared
+    // @harness props=C06 cfg=KW tier=t to=1200 mem=10 unwind=20 opts=nomem covers=1 funcs=wire::icmpv6::Repr::emit;wire::icmpv6::Repr::parse;wire::mld::Repr::emit;wire::mld::Repr::parse bounds=query_without_sources_through_Icmpv6Repr;_every_byte_compared
     #[kani::proof]
     pub(crate) fn rt_icmpv6_mld_query_wrapped() {
         let (src, dst) = (any_v6(), any_v6());
@@ -1478,79 +1505,79 @@ mod v_wire_roundtrip {
         }};
     }
 
-    // @harness props=C06 cfg=KW tier=q to=900 mem=6 unwind=12 opts=nomem covers=1 funcs=wire::tcp::Repr::emit;wire::tcp::Repr::parse;wire::tcp::Repr::buffer_len;wire::tcp::Repr::header_len bounds=no_options;_ACK_present_or_absent;_6_payload_bytes
+    // @harness props=C06 cfg=KW tier=q to=900 mem=6 unwind=7 opts=nomem covers=1 funcs=wire::tcp::Repr::emit;wire::tcp::Repr::parse;wire::tcp::Repr::buffer_len;wire::tcp::Repr::header_len bounds=no_options;_ACK_present_or_absent;_6_payload_bytes
     #[kani::proof]
     pub(crate) fn rt_tcp_plain() {
         tcp_rt!(mss = false, ws = false, sackperm = false, sack = 0, ts = false, pl = 6);
     }
 
-    // @harness props=C06 cfg=KW tier=q to=900 mem=6 unwind=12 opts=nomem covers=1 funcs=wire::tcp::Repr::emit;wire::tcp::Repr::parse;wire::tcp::TcpOption::emit;wire::tcp::TcpOption::parse bounds=MSS+WS+SACK-permitted+timestamp;_4_payload_bytes
+    // @harness props=C06 cfg=KW tier=q to=900 mem=6 unwind=7 opts=nomem covers=1 funcs=wire::tcp::Repr::emit;wire::tcp::Repr::parse;wire::tcp::TcpOption::emit;wire::tcp::TcpOption::parse bounds=MSS+WS+SACK-permitted+timestamp;_4_payload_bytes
     #[kani::proof]
     pub(crate) fn rt_tcp_syn_all() {
         tcp_rt!(mss = true, ws = true, sackperm = true, sack = 0, ts = true, pl = 4);
     }
 
-    // @harness props=C06 cfg=KW tier=q to=900 mem=6 unwind=12 opts=nomem covers=1 funcs=wire::tcp::Repr::emit;wire::tcp::Repr::parse;wire::tcp::TcpOption::emit;wire::tcp::TcpOption::parse bounds=3_SACK_blocks+timestamp;_6_payload_bytes
+    // @harness props=C06 cfg=KW tier=q to=900 mem=6 unwind=7 opts=nomem covers=1 funcs=wire::tcp::Repr::emit;wire::tcp::Repr::parse;wire::tcp::TcpOption::emit;wire::tcp::TcpOption::parse bounds=3_SACK_blocks+timestamp;_6_payload_bytes
     #[kani::proof]
     pub(crate) fn rt_tcp_sack3_ts() {
         tcp_rt!(mss = false, ws = false, sackperm = false, sack = 3, ts = true, pl = 6);
     }
 
-    // @harness props=C06 cfg=KW tier=t to=900 mem=6 unwind=12 opts=nomem covers=1 funcs=wire::tcp::Repr::emit;wire::tcp::Repr::parse bounds=MSS_only;_6_payload_bytes
+    // @harness props=C06 cfg=KW tier=t to=900 mem=6 unwind=7 opts=nomem covers=1 funcs=wire::tcp::Repr::emit;wire::tcp::Repr::parse bounds=MSS_only;_6_payload_bytes
     #[kani::proof]
     pub(crate) fn rt_tcp_mss() {
         tcp_rt!(mss = true, ws = false, sackperm = false, sack = 0, ts = false, pl = 6);
     }
 
-    // @harness props=C06 cfg=KW tier=t to=900 mem=6 unwind=12 opts=nomem covers=1 funcs=wire::tcp::Repr::emit;wire::tcp::Repr::parse bounds=window_scale_only_(1_padding_byte);_6_payload_bytes
+    // @harness props=C06 cfg=KW tier=t to=900 mem=6 unwind=7 opts=nomem covers=1 funcs=wire::tcp::Repr::emit;wire::tcp::Repr::parse bounds=window_scale_only_(1_padding_byte);_6_payload_bytes
     #[kani::proof]
     pub(crate) fn rt_tcp_ws() {
         tcp_rt!(mss = false, ws = true, sackperm = false, sack = 0, ts = false, pl = 6);
     }
 
-    // @harness props=C06 cfg=KW tier=t to=900 mem=6 unwind=12 opts=nomem covers=1 funcs=wire::tcp::Repr::emit;wire::tcp::Repr::parse bounds=SACK-permitted_only;_no_payload
+    // @harness props=C06 cfg=KW tier=t to=900 mem=6 unwind=7 opts=nomem covers=1 funcs=wire::tcp::Repr::emit;wire::tcp::Repr::parse bounds=SACK-permitted_only;_no_payload
     #[kani::proof]
     pub(crate) fn rt_tcp_sackperm() {
         tcp_rt!(mss = false, ws = false, sackperm = true, sack = 0, ts = false, pl = 0);
     }
 
-    // @harness props=C06 cfg=KW tier=t to=900 mem=6 unwind=12 opts=nomem covers=1 funcs=wire::tcp::Repr::emit;wire::tcp::Repr::parse bounds=timestamp_only;_6_payload_bytes
+    // @harness props=C06 cfg=KW tier=t to=900 mem=6 unwind=7 opts=nomem covers=1 funcs=wire::tcp::Repr::emit;wire::tcp::Repr::parse bounds=timestamp_only;_6_payload_bytes
     #[kani::proof]
     pub(crate) fn rt_tcp_ts() {
         tcp_rt!(mss = false, ws = false, sackperm = false, sack = 0, ts = true, pl = 6);
     }
 
-    // @harness props=C06 cfg=KW tier=t to=900 mem=6 unwind=12 opts=nomem covers=1 funcs=wire::tcp::Repr::emit;wire::tcp::Repr::parse bounds=MSS+WS+timestamp;_6_payload_bytes
+    // @harness props=C06 cfg=KW tier=t to=900 mem=6 unwind=7 opts=nomem covers=1 funcs=wire::tcp::Repr::emit;wire::tcp::Repr::parse bounds=MSS+WS+timestamp;_6_payload_bytes
     #[kani::proof]
     pub(crate) fn rt_tcp_mss_ws_ts() {
         tcp_rt!(mss = true, ws = true, sackperm = false, sack = 0, ts = true, pl = 6);
     }
 
-    // @harness props=C06 cfg=KW tier=t to=900 mem=6 unwind=12 opts=nomem covers=1 funcs=wire::tcp::Repr::emit;wire::tcp::Repr::parse bounds=1_SACK_block;_6_payload_bytes
+    // @harness props=C06 cfg=KW tier=t to=900 mem=6 unwind=7 opts=nomem covers=1 funcs=wire::tcp::Repr::emit;wire::tcp::Repr::parse bounds=1_SACK_block;_6_payload_bytes
     #[kani::proof]
     pub(crate) fn rt_tcp_sack1() {
         tcp_rt!(mss = false, ws = false, sackperm = false, sack = 1, ts = false, pl = 6);
     }
 
-    // @harness props=C06 cfg=KW tier=t to=900 mem=6 unwind=12 opts=nomem covers=1 funcs=wire::tcp::Repr::emit;wire::tcp::Repr::parse bounds=1_SACK_block+timestamp;_6_payload_bytes
+    // @harness props=C06 cfg=KW tier=t to=900 mem=6 unwind=7 opts=nomem covers=1 funcs=wire::tcp::Repr::emit;wire::tcp::Repr::parse bounds=1_SACK_block+timestamp;_6_payload_bytes
     #[kani::proof]
     pub(crate) fn rt_tcp_sack1_ts() {
         tcp_rt!(mss = false, ws = false, sackperm = false, sack = 1, ts = true, pl = 6);
     }
 
-    // @harness props=C06 cfg=KW tier=t to=900 mem=6 unwind=12 opts=nomem covers=1 funcs=wire::tcp::Repr::emit;wire::tcp::Repr::parse bounds=2_SACK_blocks;_6_payload_bytes
+    // @harness props=C06 cfg=KW tier=t to=900 mem=6 unwind=7 opts=nomem covers=1 funcs=wire::tcp::Repr::emit;wire::tcp::Repr::parse bounds=2_SACK_blocks;_6_payload_bytes
     #[kani::proof]
     pub(crate) fn rt_tcp_sack2() {
         tcp_rt!(mss = false, ws = false, sackperm = false, sack = 2, ts = false, pl = 6);
     }
 
-    // @harness props=C06 cfg=KW tier=t to=900 mem=6 unwind=12 opts=nomem covers=1 funcs=wire::tcp::Repr::emit;wire::tcp::Repr::parse bounds=3_SACK_blocks;_6_payload_bytes
+    // @harness props=C06 cfg=KW tier=t to=900 mem=6 unwind=7 opts=nomem covers=1 funcs=wire::tcp::Repr::emit;wire::tcp::Repr::parse bounds=3_SACK_blocks;_6_payload_bytes
     #[kani::proof]
     pub(crate) fn rt_tcp_sack3() {
         tcp_rt!(mss = false, ws = false, sackperm = false, sack = 3, ts = false, pl = 6);
     }
 
-    // @harness props=C06 cfg=KW tier=t to=900 mem=6 unwind=12 opts=nomem covers=1 funcs=wire::tcp::Repr::emit;wire::tcp::Repr::parse bounds=MSS+3_SACK_blocks+timestamp_(all_40_option_bytes);_4_payload_bytes
+    // @harness props=C06 cfg=KW tier=t to=900 mem=6 unwind=7 opts=nomem covers=1 funcs=wire::tcp::Repr::emit;wire::tcp::Repr::parse bounds=MSS+3_SACK_blocks+timestamp_(all_40_option_bytes);_4_payload_bytes
     #[kani::proof]
     pub(crate) fn rt_tcp_mss_sack3_ts() {
         tcp_rt!(mss = true, ws = false, sackperm = false, sack = 3, ts = true, pl = 4);
@@ -1561,7 +1588,9 @@ mod v_wire_roundtrip {
         ($opt:expr, $pl:expr) => {{
             const N: usize = 20 + $opt + $pl;
             let mut bytes: [u8; N] = kani::any();
-            bytes[12] = (bytes[12] & 0x0f) | ((((20 + $opt) / 4) as u8) << 4);
+            // the whole byte is concrete (reserved bits and NS flag zero): CBMC does not fold `((x & 0x0f) | 0x50) >> 4`,
+            // and a symbolic header length unrolls every option loop
+            bytes[12] = (((20 + $opt) / 4) as u8) << 4;
             let src = IpAddress::Ipv4(any_v4());
             let dst = IpAddress::Ipv4(any_v4());
             if let Ok(p) = TcpPacket::new_checked(&bytes[..]) {
@@ -1582,7 +1611,7 @@ mod v_wire_roundtrip {
                             assert!(back.timestamp == r.timestamp, "prop:c06_reparse_of_parsed_is_identity");
                             assert!(back.sack_ranges[0] == r.sack_ranges[0] && back.sack_ranges[1] == r.sack_ranges[1] && back.sack_ranges[2] == r.sack_ranges[2], "prop:c06_reparse_of_parsed_is_identity");
                             same_bytes!(back.payload, r.payload, $pl, "prop:c06_reparse_of_parsed_is_identity");
-                            kani::cover!(r.max_seg_size.is_some() || r.window_scale == Some(14), "parsed an MSS or a clamped window-scale option");
+                            kani::cover!(r.control == TcpControl::Syn && (r.max_seg_size.is_some() || $opt == 0), "parsed a SYN (with an MSS option when there is room for one)");
                         }
                         Err(_) => assert!(false, "prop:c06_reparse_of_parsed_is_identity"),
                     }
@@ -1591,16 +1620,16 @@ mod v_wire_roundtrip {
         }};
     }
 
-    // @harness props=C06 cfg=KW tier=q to=900 mem=8 unwind=12 opts=nomem covers=1 funcs=wire::tcp::Repr::parse;wire::tcp::Repr::emit;wire::tcp::TcpOption::parse bounds=arbitrary_26_bytes:_header;_4_option_bytes;_2_payload_bytes
+    // @harness props=C06 cfg=KW tier=q to=900 mem=8 unwind=7 opts=nomem covers=1 funcs=wire::tcp::Repr::parse;wire::tcp::Repr::emit bounds=arbitrary_24_bytes_(data-offset_byte_fixed_to_0x50):_header_without_options;_4_payload_bytes
     #[kani::proof]
     pub(crate) fn reparse_tcp() {
-        tcp_reparse!(4, 2);
+        tcp_reparse!(0, 4);
     }
 
-    // @harness props=C06 cfg=KW tier=t to=1800 mem=12 unwind=12 opts=nomem covers=1 funcs=wire::tcp::Repr::parse;wire::tcp::Repr::emit;wire::tcp::TcpOption::parse bounds=arbitrary_30_bytes:_header;_8_option_bytes;_2_payload_bytes
+    // @harness props=C06 cfg=KW tier=t to=1800 mem=16 unwind=7 opts=nomem covers=1 funcs=wire::tcp::Repr::parse;wire::tcp::Repr::emit;wire::tcp::TcpOption::parse bounds=arbitrary_26_bytes_(data-offset_byte_fixed_to_0x60):_header;_4_option_bytes;_2_payload_bytes
     #[kani::proof]
-    pub(crate) fn reparse_tcp_opt8() {
-        tcp_reparse!(8, 2);
+    pub(crate) fn reparse_tcp_opt4() {
+        tcp_reparse!(4, 2);
     }
 
     // ------------------------------------------------------------------ DHCPv4
@@ -2176,9 +2205,9 @@ mod v_wire_roundtrip {
             let p = SixlowpanIphcPacket::new_checked(&b1[..]);
             assert!(p.is_ok(), "prop:c06_emitted_packet_passes_new_checked");
             let p = p.unwrap();
+            kani::cover!(b1[N - 1] != 0, "emitted and accepted by new_checked, last byte non-zero");
             assert!(p.header_len() == N, "prop:c06_parse_of_emit_is_identity");
             let back = SixlowpanIphcRepr::parse(&p, ll_src_addr, ll_dst_addr, &[]);
-            kani::cover!(back.is_ok(), "parsed");
             assert!(back == Ok(repr), "prop:c06_parse_of_emit_is_identity");
         }};
     }
@@ -2240,4 +2269,54 @@ mod v_wire_roundtrip {
     }
 
     // <<END>>
+}
+
+// Stubs for the other build configurations: the replay dispatcher that ./check generates for this file names every
+// harness and is compiled in every configuration (this file sits at the crate root).  No annotation => not harnesses.
+#[cfg(not(all(
+    feature = "medium-ethernet",
+    feature = "medium-ieee802154",
+    feature = "proto-sixlowpan",
+    feature = "proto-dhcpv4",
+    feature = "proto-dns",
+    feature = "proto-ipv4",
+    feature = "proto-ipv6"
+)))]
+#[allow(dead_code)]
+mod v_wire_roundtrip {
+    macro_rules! stubs {
+        ($($n:ident)*) => { $(pub(crate) fn $n() {})* };
+    }
+    stubs! {
+        rt_ethernet reparse_ethernet rt_arp reparse_arp
+        rt_ipv4 reparse_ipv4 rt_ipv6 reparse_ipv6
+        rt_udp reparse_udp rt_igmp_query rt_igmp_report_leave
+        finding_igmp_leave_stale_max_resp_code reparse_igmp rt_icmpv4_echo rt_icmpv4_error
+        finding_icmpv4_error_unused_stale finding_icmpv4_error_cut_payload reparse_icmpv4 reparse_icmpv4_error
+        rt_icmpv6_echo_request rt_icmpv6_echo_reply_empty rt_icmpv6_echo_reply rt_icmpv6_dst_unreachable
+        rt_icmpv6_pkt_too_big rt_icmpv6_time_exceeded rt_icmpv6_param_problem finding_icmpv6_error_unused_stale
+        reparse_icmpv6_echo rt_ndisc_rs_eth rt_ndisc_rs_ieee rt_ndisc_rs_none
+        rt_icmpv6_ndisc_ns_wrapped rt_ndisc_ns_eth rt_ndisc_ns_ieee rt_ndisc_na_eth
+        rt_ndisc_na_none rt_ndisc_ra_none rt_ndisc_ra_all rt_ndisc_ra_ieee_prefix
+        rt_ndisc_ra_mtu rt_ndisc_redirect_none rt_ndisc_redirect_ll rt_ndisc_redirect_full
+        indep_ndisc_redirect_full rt_ndisc_redirect_hdr rt_ndiscopt_sll_eth rt_ndiscopt_tll_ieee
+        rt_ndiscopt_prefix rt_ndiscopt_mtu rt_ndiscopt_redirected rt_ndiscopt_unknown
+        finding_ndiscopt_lladdr_padding_stale finding_ndiscopt_mtu_reserved_stale finding_ndiscopt_redirected_padding_stale rt_mld_query
+        rt_mld_report rt_mld_report_records finding_mld_report_records_buffer_len rt_icmpv6_mld_query_wrapped
+        rt_ipv6_ext_header rt_ipv6_ext_header_16 rt_ipv6_option_small rt_ipv6_option_unknown
+        rt_ipv6_hbh_mld rt_ipv6_hbh_max rt_ipv6_routing_type2 rt_ipv6_routing_rpl
+        rt_ipv6_fragment rt_tcp_plain rt_tcp_syn_all rt_tcp_sack3_ts
+        rt_tcp_mss rt_tcp_ws rt_tcp_sackperm rt_tcp_ts
+        rt_tcp_mss_ws_ts rt_tcp_sack1 rt_tcp_sack1_ts rt_tcp_sack2
+        rt_tcp_sack3 rt_tcp_mss_sack3_ts reparse_tcp reparse_tcp_opt4
+        rt_dhcp_discover rt_dhcp_request rt_dhcp_ack rt_dhcp_minimal
+        rt_dhcp_empty_lists finding_dhcp_renew_rebind_lost rt_dns_query finding_dns_flags_word_stale
+        rt_ieee802154_2003_ext_ext_comp rt_ieee802154_2006_ext_ext_full rt_ieee802154_2003_short_ext_comp rt_ieee802154_2003_short_short_full
+        rt_ieee802154_2006_ext_short_comp rt_ieee802154_2003_ext_absent_comp rt_ieee802154_2015_short_short_full rt_ieee802154_2015_short_ext_comp
+        finding_ieee802154_2015_ext_ext_comp finding_ieee802154_frame_control_stale rt_sixlowpan_frag rt_sixlowpan_ext_header_inline
+        rt_sixlowpan_ext_header_compressed rt_sixlowpan_udp_nhc_inline rt_sixlowpan_udp_nhc_src_f0 finding_sixlowpan_udp_nhc_dst_f0
+        finding_sixlowpan_udp_nhc_both_f0b finding_sixlowpan_udp_nhc_checksum_stale rt_iphc_eui64_mcast8 rt_iphc_global_global
+        rt_iphc_unspec_mcast32 rt_iphc_short_short rt_iphc_ll16_ll16 rt_iphc_ll64_eui64
+        rt_iphc_global_ll64 rt_iphc_global_mcast48 finding_iphc_multicast_full
+    }
 }
